@@ -7,7 +7,7 @@
 export GOFLAGS=-mod=mod GOPROXY=off GOSUMDB=off GOTOOLCHAIN=local GOWORK=off
 unset GOARCH GOOS
 V=/verif
-if [ ! -x $V/bin/sacheck ] || [ -n "$(find $V/sacheck -name '*.go' -newer $V/bin/sacheck 2>/dev/null | head -1)" ]; then
+if [ ! -x $V/bin/sacheck ] || [ -n "$(find $V/sacheck \( -name '*.go' -o -name '*.txt' -o -name 'go.mod' \) -newer $V/bin/sacheck 2>/dev/null | head -1)" ]; then
   (cd $V/sacheck && go build -o $V/bin/sacheck .) || { echo "VIOLATION property=${1:-?} replay=$V/evidence/replay/build-failed.json"; exit 1; }
 fi
 if [ "$1" = "--replay" ]; then
